@@ -129,7 +129,7 @@ def run(ctx):
                   "suppression (is_suppressed() true) or of a child that already carries the category, only the "
                   "suppression visitor writes those bits, is_suppressed() answers true only after suppresses_diff() did, "
                   "and the suppressed_* sets are filled only under a suppression predicate")
-    ctx.rules = ["R-SUPPRCAT/ORIGIN", "R-SUPPRCAT/GUARD", "R-SUPPRCAT/PRED", "R-SUPPRSET"]
+    ctx.rules = ["R-SUPPRCAT/ORIGIN", "R-SUPPRCAT/GUARD", "R-SUPPRCAT/PRED", "R-SUPPRSET", "R-BINGATE"]
     P = ctx.program(UNITS)
     setters = sa.CATEGORY_SETTERS
     n_writes = 0
@@ -260,6 +260,8 @@ def run(ctx):
                    "in the then-branch of a test that calls the suppression predicate" if guarded else
                    "an interface is recorded as suppressed without a suppression predicate having answered true")
     ctx.floor("R-SUPPRSET", "stores into the suppressed_* containers", n_store, 12)
+    from rules import bingate_rule
+    bingate_rule.check(ctx, P)
     ctx.assume("that suppresses_diff / suppresses_function / ... answer false for a section whose constraints match "
                "nothing is the matching logic itself (runtime; its regex and change_kind clauses are decided under C23-C25); "
                "suppressions handed to the readers (types dropped at load time) are outside this clause")
